@@ -503,6 +503,7 @@ func (fc *FuncCtx) defaultCall(st *State, fn *types.Func, recv *Val, args []Val,
 		r := App(nm, s, ts...)
 		st.assume(fc.typeFacts(r, t))
 		fc.assumeTypeInv(st, r, t)
+		fc.externalErrNoBlame(st, fn, r, t)
 		return Val{T: r, Typ: t}
 	}
 	if resT == nil {
@@ -519,6 +520,47 @@ func (fc *FuncCtx) defaultCall(st *State, fn *types.Func, recv *Val, args []Val,
 		return Val{Tuple: vs}
 	}
 	return mkRes(resT, -1)
+}
+
+// externalErrNoBlame: an error produced by a function outside the module (standard library, third-party
+// dependencies other than errs-go) carries no identifiable-abort tag: tags are attached only by errs-go's WithTag,
+// which only module code calls. Functions that may hand back an error or run a callback supplied by the caller
+// (parameters of type error, func, or slices of them) are excluded.
+func (fc *FuncCtx) externalErrNoBlame(st *State, fn *types.Func, r *Term, t types.Type) {
+	if fn == nil || fn.Pkg() == nil || t == nil || r == nil || r.Sort.Kind != "V" {
+		return
+	}
+	pp := fn.Pkg().Path()
+	if strings.HasPrefix(pp, fc.eng.modPath) || strings.Contains(pp, "errs-go") || strings.Contains(pp, "errgroup") {
+		return
+	}
+	if t.String() != "error" {
+		return
+	}
+	sig := fn.Type().(*types.Signature)
+	carries := func(pt types.Type) bool {
+		for d := 0; d < 3; d++ {
+			switch x := types.Unalias(pt).Underlying().(type) {
+			case *types.Signature:
+				return true
+			case *types.Slice:
+				pt = x.Elem()
+				continue
+			case *types.Interface:
+				return pt.String() == "error"
+			}
+			break
+		}
+		return false
+	}
+	for i := 0; i < sig.Params().Len(); i++ {
+		if carries(sig.Params().At(i).Type()) {
+			return
+		}
+	}
+	x := BVar("x!eb", SV)
+	st.assume(Forall([]*Term{x}, Not(App("culprit", SBool, r, x)), []*Term{App("culprit", SBool, r, x)}))
+	fc.note("errors returned by functions outside the module carry no blame tag (tags are attached only through errs-go)")
 }
 
 // ---------------------------------------------------------------- contracts at call sites
@@ -670,11 +712,18 @@ func (fc *FuncCtx) applyContract(st *State, fn *types.Func, c *FuncContract, rec
 				sg = append(sg, sortTag(a.Sort))
 			}
 			t = App(nm+"$"+strings.Join(sg, ".")+">"+sortTag(s), s, ats...)
+		} else if i == 0 && c.Opts["fresh"] == "result" && s.Kind == "V" && !fc.inSpec {
+			// the contract declares the (first) result a newly allocated object: distinct from nil and from
+			// every object that existed before the call
+			t = fc.newRef(st, "r_"+fn.Name())
 		} else {
 			t = fc.freshConst("r_"+fn.Name(), s)
 		}
 		st.assume(fc.typeFacts(t, rt))
 		fc.assumeTypeInv(st, t, rt)
+		if c.Assumed {
+			fc.externalErrNoBlame(st, fn, t, rt)
+		}
 		v := Val{T: t, Typ: rt}
 		results = append(results, v)
 		nm := rv.Name()
@@ -833,6 +882,15 @@ func hasTypeParam(t types.Type, depth int) bool {
 		return hasTypeParam(x.Elem(), depth+1)
 	case *types.Map:
 		return hasTypeParam(x.Key(), depth+1) || hasTypeParam(x.Elem(), depth+1)
+	case *types.Named:
+		// an instantiated generic type whose arguments mention a type parameter (e.g. RoundMessages[M, P])
+		if ta := x.TypeArgs(); ta != nil {
+			for i := 0; i < ta.Len(); i++ {
+				if hasTypeParam(ta.At(i), depth+1) {
+					return true
+				}
+			}
+		}
 	}
 	return false
 }
